@@ -828,6 +828,12 @@ fn run_val(text: &str) -> String {
         format!("fix2={}", r(v.as_fixed_len_tuple(2).map(Value::Tuple))),
         format!("rng13={}", r(v.as_ranged_len_tuple(1..=3).map(Value::Tuple))),
         format!("rng00={}", r(v.as_ranged_len_tuple(0..=0).map(Value::Tuple))),
+        format!("rng31={}", r(v.as_ranged_len_tuple(3..=1).map(Value::Tuple))),
+        format!("rngmax={}", r(v.as_ranged_len_tuple(0..=usize::MAX).map(Value::Tuple))),
+        format!("rng25={}", r(v.as_ranged_len_tuple(2..=5).map(Value::Tuple))),
+        format!("fix1={}", r(v.as_fixed_len_tuple(1).map(Value::Tuple))),
+        format!("fix3={}", r(v.as_fixed_len_tuple(3).map(Value::Tuple))),
+        format!("fixmax={}", r(v.as_fixed_len_tuple(usize::MAX).map(Value::Tuple))),
         format!("empty={}", u(v.as_empty())),
         format!("strfrom={}", hex(v.str_from())),
         format!("tfs={}", r(String::try_from(v.clone()).map(Value::String))),
